@@ -63,6 +63,9 @@ def build(case):
     for i, c in enumerate(case["catch"]):
         states["H%d" % i] = {"Type": "Pass", "Parameters": {"handler": i, "data.$": "$"}, "End": True}
     definition = {"StartAt": "S1", "States": states}
+    if case.get("exec_timeout"):
+        # the machine's own TimeoutSeconds expires while the (slow) task is running: an execution time-out, which no Retrier or Catcher may intercept
+        definition["TimeoutSeconds"] = case["exec_timeout"]
     seq = []
     for o in case["outcomes"]:
         if o == "ok":
@@ -87,6 +90,8 @@ def run_case(case):
         exp = it.run(copy.deepcopy(input_value))
     except ri.Unspec as e:
         return [], {"skip": str(e)}
+    if exp.status == "FAILED" and exp.error and "States.ExecutionTimeout" in exp.error:
+        exp.error = ("States.Timeout",)       # the reference's internal name for the execution time-out; it is reported as States.Timeout
     info = {"multi_retrier": it.multi_retrier, "expected": repr(exp), "retries": sum(1 for ev in _flat(exp.trace) if ev[0] == "retry"),
             "caught": [ev for ev in _flat(exp.trace) if ev[0] == "caught"]}
     w = W.World(seed=7, tick=0.0)
@@ -193,6 +198,13 @@ def shard(k, seed, tier, examples=80):
             case["outcomes"] = ["ok"]
         if kind == "Map":
             case["mc"] = draw(st.sampled_from([0, 0, 1, 2]))
+        if "self_error" not in case and draw(st.integers(0, 7)) == 0:
+            # execution time-out strictly before any task time-out: handlers on States.Timeout / States.ALL must not see it
+            case["exec_timeout"] = draw(st.integers(1, 3))
+            case["outcomes"] = ["slow"] + case["outcomes"]
+            case["timeout"] = draw(st.sampled_from([None, case["exec_timeout"] + 2]))
+            if case["timeout"] is None:
+                del case["timeout"]
         return case
 
     @hypothesis.seed(seed)
@@ -209,7 +221,7 @@ def shard(k, seed, tier, examples=80):
             return
         nt = info["retries"] >= 1 or any(True for c in info["caught"]) and len(case["catch"]) > 1
         camp.case(case, nontrivial=bool(nt), classes=["kind-" + case["kind"], "retries-%d" % min(info["retries"], 4), "caught" if info["caught"] else "not-caught",
-                                                      "multi-retrier" if info["multi_retrier"] else "single-retrier", "type-" + case["type"]] + (["self-error-" + case["self_error"]] if case.get("self_error") else []),
+                                                      "multi-retrier" if info["multi_retrier"] else "single-retrier", "type-" + case["type"]] + (["self-error-" + case["self_error"]] if case.get("self_error") else []) + (["execution-timeout-during-task"] if case.get("exec_timeout") else []),
                   sample=dict(case, expected=info["expected"], observed=info.get("observed")))
         for b, d in fails:
             camp.fail(b, case, d)
